@@ -42,8 +42,8 @@ immediate representation and the reference representation are observationally eq
   (order-insensitive), ranges structurally.
 * `+` also joins two strings / lists / tuples / maps; the other arithmetic operators and all compound
   assignments accept numbers only (`s += 'x'` is a type error in Koto).
-* `^` on two ints with a non-negative exponent wraps like `+ - *` (the power modulo 2⁶⁴ — the code
-  truncates exponents ≥ 2³², finding F-C01-5); a negative exponent gives a float (`powf`); `%` with an
+* `^` on two ints with a non-negative exponent wraps like `+ - *` (the power modulo 2⁶⁴, for every
+  exponent — finding F-C01-5, exponents ≥ 2³² were truncated, is fixed in /repo 1b7bdc2); a negative exponent gives a float (`powf`); `%` with an
   *integer* zero divisor is NaN; float `%` / `powf` are outside the model (`unmodelled`).
 * value of a loop that ends without `break`: the value of the last evaluation of its body, `null`
   when it never ran or when that evaluation ended in `continue`; `break` without value gives `null`.
